@@ -109,6 +109,31 @@ def _nets(E):
         def forward(s, x):
             return s.l(s.f(s.pool(s.m2(torch.relu(s.m1(x))))))
 
+    class QAddIn(nn.Module):
+        """MPS: an add fed by the network input only (x + avgpool(x)): the add is the SOLE holder of its output quantizer;
+        a second add shares the quantizer of the two convolutions it sums"""
+        def __init__(s):
+            super().__init__()
+            s.smooth = nn.AvgPool2d(3, stride=1, padding=1)
+            s.c1 = nn.Conv2d(3, 4, 3, padding=1); s.c2 = nn.Conv2d(4, 4, 3, padding=1); s.c3 = nn.Conv2d(4, 4, 3, padding=1)
+            s.pool = nn.AdaptiveAvgPool2d(1); s.f = nn.Flatten(); s.l = nn.Linear(4, 3)
+
+        def forward(s, x):
+            x = x + s.smooth(x)
+            a = torch.relu(s.c1(x)); b = torch.relu(s.c2(a) + s.c3(a))
+            return s.l(s.f(s.pool(b)))
+
+    class QAddExcl(nn.Module):
+        """MPS: an add fed by two layers excluded from the search, followed by searchable layers"""
+        def __init__(s):
+            super().__init__()
+            s.e1 = nn.Conv2d(3, 4, 3, padding=1); s.e2 = nn.Conv2d(3, 4, 1)
+            s.c1 = nn.Conv2d(4, 4, 3, padding=1); s.pool = nn.AdaptiveAvgPool2d(1); s.f = nn.Flatten(); s.l = nn.Linear(4, 3)
+
+        def forward(s, x):
+            a = s.e1(x) + s.e2(x)
+            return s.l(s.f(s.pool(torch.relu(s.c1(torch.relu(a))))))
+
     class GNet(nn.Module):
         """interpreter of a node list (see GSPECS); layer i is the sub-module `n<i>`"""
         def __init__(s, nodes, out, dim=2):
@@ -149,7 +174,7 @@ def _nets(E):
                 else:
                     v.append(getattr(s, 'n%d' % i)(v[nd[1]]))
             return v[s.out]
-    return TCN, CNN, QNet, QNet1d, SNet, GNet, TiedPIT, TiedSNet
+    return TCN, CNN, QNet, QNet1d, SNet, GNet, TiedPIT, TiedSNet, QAddIn, QAddExcl
 
 
 # ----------------------------------------------------------------------------- networks given as dataflow
@@ -274,15 +299,15 @@ def io_tied_layers(spec):
     return [i for i, nd in enumerate(nodes) if nd[0] in ('conv', 'lin') and i not in excluded and find(i) in tied]
 
 
-PROTOS_QUICK = ['pit-tcn', 'pit-cnn', 'pit-cnn-foldbn', 'pit-tcn-foldbn', 'pit-tied', 'mps-chan-gumbel', 'mps-layer-soft', 'mps-tied', 'sn-mixed', 'sn-tied'] + sorted(GSPECS)
-PROTOS_THOROUGH = PROTOS_QUICK + ['pit-tcn-off', 'mps-1d-hard', 'mps-chan-noshare', 'sn-gumbel-hard']
+PROTOS_QUICK = ['pit-tcn', 'pit-cnn', 'pit-cnn-foldbn', 'pit-tcn-foldbn', 'pit-tied', 'mps-chan-gumbel', 'mps-layer-soft', 'mps-tied', 'mps-add-input', 'mps-add-excluded', 'sn-mixed', 'sn-tied'] + sorted(GSPECS)
+PROTOS_THOROUGH = PROTOS_QUICK + ['pit-tcn-off', 'mps-add-input-hard', 'mps-1d-hard', 'mps-chan-noshare', 'sn-gumbel-hard']
 
 
 def build(name, E=None, seed=0):
     """-> (method, model (training mode), input batch); weights and the input batch are drawn from `seed`"""
     E = E or env()
     torch = E['torch']
-    TCN, CNN, QNet, QNet1d, SNet, GNet, TiedPIT, TiedSNet = _nets(E)
+    TCN, CNN, QNet, QNet1d, SNet, GNet, TiedPIT, TiedSNet, QAddIn, QAddExcl = _nets(E)
     torch.manual_seed(11 + 1000 * int(seed))
     cost = {'p': E['params'], 'o': E['ops']}
     if name in GSPECS:
@@ -295,6 +320,18 @@ def build(name, E=None, seed=0):
         x = torch.randn(2, 3, 8, 8)
     elif name == 'sn-tied':
         m = E['SuperNet'](TiedSNet(), input_shape=(3, 8, 8), cost=cost)
+        x = torch.randn(2, 3, 8, 8)
+    elif name == 'mps-add-input':
+        m = E['MPS'](QAddIn(), input_shape=(3, 8, 8), w_search_type=E['MPSType'].PER_LAYER,
+                     qinfo=E['get_default_qinfo'](w_precision=(2, 4, 8), a_precision=(4, 8)), temperature=2.0, gumbel_softmax=True)
+        x = torch.randn(2, 3, 8, 8)
+    elif name == 'mps-add-input-hard':
+        m = E['MPS'](QAddIn(), input_shape=(3, 8, 8), w_search_type=E['MPSType'].PER_CHANNEL,
+                     qinfo=E['get_default_qinfo'](w_precision=(2, 4, 8), a_precision=(2, 4, 8)), hard_softmax=True, disable_sampling=True)
+        x = torch.randn(2, 3, 8, 8)
+    elif name == 'mps-add-excluded':
+        m = E['MPS'](QAddExcl(), input_shape=(3, 8, 8), w_search_type=E['MPSType'].PER_LAYER,
+                     qinfo=E['get_default_qinfo'](w_precision=(4, 8), a_precision=(4, 8)), exclude_names=['e1', 'e2'], temperature=0.5)
         x = torch.randn(2, 3, 8, 8)
     elif name == 'mps-tied':
         # weight tying done by the user on the converted model: the two parallel convolutions share weight and bias objects
@@ -354,6 +391,8 @@ def alphabet(method, thorough=False):
     if method == 'SuperNet':
         ops += [['update', {'temperature': 0.5}], ['update', {'temperature': 4.0}], ['update', {'hard': True}], ['update', {'hard': False}],
                 ['set', 'train_selection', True], ['set', 'train_selection', False]]
+    if method in ('MPS', 'SuperNet'):
+        ops.append(['fwd'])     # a forward pass alone (keeps the autograd graph of the sampled coefficients alive in the history)
     ops.append(['fb'])
     return ops
 
@@ -368,6 +407,8 @@ def op_coq(op):
         return 'TNetAndNas'
     if k == 'fb':
         return 'TFwdBwd'
+    if k == 'fwd':
+        return '(TUpdate None None None None)'    # forward only: the identity step of the model (no option given, no observation)
     if k == 'set':
         c = {'train_features': 'TSetFeat', 'train_rf': 'TSetRf', 'train_dilation': 'TSetDil', 'train_selection': 'TSetSel', 'discrete_cost': 'TSetDiscrete'}[op[1]]
         return '(%s %s)' % (c, coq(bool(op[2])))
@@ -444,11 +485,13 @@ def observe(model, S):
         t = q.temperature if hasattr(q, 'temperature') else q.softmax_temperature
         samp.append((Fraction(float(t)), bool(q.hard_softmax), kind_of(q)))
         hidden.append((getattr(q, 'gumbel_softmax', None), getattr(q, 'disable_sampling', None)))
-    return {'rg': rg, 'nas': nas, 'net': net, 'par': par, 'flags': flags, 'ldisc': ldisc, 'samplers': tuple(samp), 'hidden': tuple(hidden)}
+    tgraph = any(isinstance(getattr(model.get_submodule(n), 'theta_alpha', None), torch.Tensor) and model.get_submodule(n).theta_alpha.requires_grad
+                 for n in S['sampler_names']) if S['method'] == 'MPS' else False
+    return {'rg': rg, 'nas': nas, 'net': net, 'par': par, 'flags': flags, 'ldisc': ldisc, 'samplers': tuple(samp), 'hidden': tuple(hidden), 'tgraph': tgraph}
 
 
 def akey(a):
-    return (a['rg'], a['nas'], a['net'], a['par'], a['flags'], a['ldisc'], a['samplers'], a['hidden'])
+    return (a['rg'], a['nas'], a['net'], a['par'], a['flags'], a['ldisc'], a['samplers'], a['hidden'], a.get('tgraph', False))
 
 
 def forward_backward(model, x, S):
@@ -479,6 +522,9 @@ def apply_op(model, x, S, op):
     k = op[0]
     if k == 'fb':
         return forward_backward(model, x, S)
+    if k == 'fwd':
+        model(x)
+        return None
     if k == 'set':
         setattr(model, op[1], op[2])
     elif k == 'update':
@@ -581,7 +627,13 @@ def describe(method, model, x):
         q = pm.get_submodule(n)
         q.hard_softmax = False
         q.sample_alpha = q.sample_alpha_sm
+    called = set()
+    hooks = [pm.get_submodule(n).register_forward_hook(lambda mod, i, o, nm=n: called.add(nm)) for n, _ in smods]
     g = forward_backward(pm, x, S)
+    for h in hooks:
+        h.remove()
+    for st, (n, _) in zip(S['samplers_static'], smods):
+        st['used'] = n in called      # the quantizer / combiner takes part in the forward pass (observed, not read from the classes)
     S['reads'] = [bool(c) and S['frozen'][k] != 'PITFrozenFeaturesMasker' for k, c in enumerate(g)]
     return S
 
